@@ -1,10 +1,8 @@
------------------------------ MODULE AxiIcTrace -----------------------------
-(* T-mode: linear replays of counterexamples on the real axi_full.py netlist, *)
-(* re-judged by AxiIcContract alone                                           *)
-EXTENDS AxiIcContract, Json, IOUtils
+-------------------------- MODULE AxiTimeoutTrace --------------------------
+EXTENDS AxiTimeoutContract, Json, IOUtils
 T == JsonDeserialize(IOEnv.TRACES)
 VARIABLES tid, l, envbad, stall
-vars == <<tid, l, envbad, stall, ah, wh, aq, rb, wq, qa, sb, qw, qp, rh, gp, tr, sav, swv, mrv, obs>>
+vars == <<tid, l, envbad, stall, ah, wh, na, nwb, wdone, sa, swd, sbs, rh, mrh, waitc, owedc, forced, errseen, obs>>
 C == T[tid].cfg
 Init == /\ tid \in 1..Len(T) /\ l = 1 /\ envbad = FALSE /\ stall = 0 /\ CInit
 Next ==
@@ -13,7 +11,7 @@ Next ==
          o  == T[tid].ev[l][2]
      IN /\ envbad' = (envbad \/ iv \notin Inputs(C))
         /\ CStep(C, iv, o)
-        /\ stall' = IF (\E i \in 1..MAXN : ~obs'.prog[i]) /\ obs'.fair THEN stall + 1 ELSE 0
+        /\ stall' = IF ~obs'.prog /\ obs'.rr THEN stall + 1 ELSE 0
   /\ l' = l + 1 /\ tid' = tid
 EnvLegal == ~envbad
 BoundedService == stall < C.stallbound
